@@ -68,6 +68,9 @@ B3 = {
 }
 B2.update(B3)
 
+FALSE_SIGS = ["C14/registered-client-got-no-copy", "C14/unregistered-client-got-event", "C14/event-lost/witness", "C16/healed-host-gets-no-traffic/", "C16/outage-not-reported-while-down",
+              "C20/refused-valid/mapping", "C13/gate/rejected-version-forwarded/v=v4/max=v3", "C08/unprepared-reached-client/pipelined-reprepare-drop"]
+
 rows = collections.defaultdict(dict)
 for matrix in matrices:
     if not os.path.exists(matrix):
@@ -79,6 +82,8 @@ for matrix in matrices:
 
 for sid in sorted(os.listdir(os.path.join(V, "seeded"))):
     d = os.path.join(V, "seeded", sid)
+    if not os.path.isdir(d):
+        continue
     mp = os.path.join(d, "meta.json")
     if os.path.exists(mp):
         meta = json.load(open(mp))
@@ -94,6 +99,19 @@ for sid in sorted(os.listdir(os.path.join(V, "seeded"))):
         }
     if sid in rows:
         caught = {c: s for c, (rc, s) in sorted(rows[sid].items()) if rc == 1}
+        # alarms of checks that were themselves wrong at the time of the matrix run (load-dependent false alarms, all
+        # corrected afterwards, see DESIGN.md B.4) are not detections; they are kept apart
+        own_p = meta["breaks_property"]
+        wrong = {}
+        for c_, s_ in list(caught.items()):
+            sigs_ = [x for x in s_.split(";") if x.strip()]
+            if c_ != own_p and sigs_ and all(any(x.startswith(f) for f in FALSE_SIGS) for x in sigs_):
+                wrong[c_] = s_
+                del caught[c_]
+        if wrong:
+            meta["alarms_of_checks_since_corrected"] = wrong
+        else:
+            meta.pop("alarms_of_checks_since_corrected", None)
         broken = {c: rc for c, (rc, s) in sorted(rows[sid].items()) if rc not in (0, 1)}
         meta["caught_by_quick"] = caught
         if broken:
